@@ -96,9 +96,11 @@ func cmdEngineInner() {
 	data, _ := os.ReadFile(filepath.Join(verifDir, "selftest", "engine", "expect.json"))
 	_ = json.Unmarshal(data, &exp)
 	res := engineResult{}
+	used := map[string]bool{}
 	match := func(pats []string, name string) bool {
 		for _, pt := range pats {
 			if ok, _ := regexp.MatchString("^"+pt+"$", name); ok {
+				used[pt] = true
 				return true
 			}
 		}
@@ -124,6 +126,17 @@ func cmdEngineInner() {
 			} else {
 				res.Wrong = append(res.Wrong, b+" was discharged but must fail")
 			}
+		}
+	}
+	// an expectation that matches no obligation is itself a failure (vacuous expectation)
+	for _, pt := range append(append([]string{}, exp.MustFail...), exp.MustPass...) {
+		if !used[pt] {
+			res.Wrong = append(res.Wrong, "expectation "+pt+" matches no obligation")
+		}
+	}
+	if os.Getenv("VERIF_ENGINE_LIST") != "" {
+		for _, o := range obls {
+			fmt.Printf("  %-70s %s\n", baseName(o.Name), statusOf(o))
 		}
 	}
 	js, _ := json.Marshal(res)
